@@ -20,6 +20,7 @@ def run(ctx, prog, facts, tier):
     rules_c02.check_writers(ctx, prog)
     rules_c02.check_union_and_accessors(ctx, prog, I)
     rules_c02.check_display_traps(ctx, prog)
+    rules_c02.check_display_cells(ctx, prog)
     # uniformity of the 8-board update preserves disjointness / union / p1 <= all
     rules_c02.check_move_footprint(ctx, prog, I, mvs)
     rules_c02.check_capture_footprint(ctx, prog, I)
